@@ -8,7 +8,7 @@
    NaN and infinities included (None). *)
 From Coq Require Import ZArith QArith Qabs List Bool Arith.
 From Inkfem Require Import Num.NumOps Model.Types Model.Slice Model.Dof Model.Assemble Model.Recover
-  Proofs.AcceptProofs.
+  Proofs.AcceptProofs Gen.GenAccept Proofs.AcceptBound.
 Import ListNotations.
 Local Open Scope Q_scope.
 
@@ -67,3 +67,10 @@ Example C05_accepts_somewhere :
   accept (1 # 100) K [1; 0] [Some (2 # 3); None] = None /\
   accept (1 # 100) K [1; 0] [Some (2 # 3); Some (1 # 2)] = None.
 Proof. vm_compute. repeat split. Qed.
+
+(* the bound the acceptance test is given (Gen/GenAccept.v, regenerated from computeGlobalDisplacements)
+   is the requested error itself, and the error reported with the displacements is that same number *)
+Theorem C05_acceptance_bound_is_the_requested_error : forall e : Q,
+  accept_bound (O:=QOps) e == e /\ reported_error (O:=QOps) e == e.
+Proof. intro e. split; [apply accept_bound_is_the_option | apply reported_error_is_the_option]. Qed.
+Print Assumptions C05_acceptance_bound_is_the_requested_error.
